@@ -25,7 +25,7 @@
     (C14_cancel_reaches_done); that the Go scheduler IS fair is not. *)
 From Coq Require Import Arith Bool List String Ascii ZArith.
 From CanVerif Require Import Runner.Lts Runner.RunModel Runner.LockDiscipline Runner.Protocol Runner.RunLts Runner.RunProofs.
-From CanVerif Require Import Dbc.Ast Runner.Program Runner.ProgramProofs.
+From CanVerif Require Import Dbc.Ast Runner.Program Runner.ProgramProofs Runner.ProgramLts Runner.ProgramLtsProofs.
 Import ListNotations.
 
 (** I4 exactly-once: accepted + ticks_taken - transmitted - aborted is 1 inside transmit, else 0 *)
@@ -449,4 +449,39 @@ Example C14_action_programs_nonvacuous :
               mkNode CRet (text_at p_RunMessageTransmitter_disableCyclicTransmission 1) [];
               mkNode CCall (text_at p_RunMessageTransmitter_disableCyclicTransmission 2) [3];
               mkNode CRet (text_at p_RunMessageTransmitter_disableCyclicTransmission 4) []] = Some 3.
+Proof. vm_compute. repeat split. Qed.
+
+(** REFINEMENT of the transmit closure's action program by the LTS (Runner/ProgramLts.v): [tx_next t x c o b] = the step of
+    thread t in [p_RunMessageTransmitter_transmit] from configuration c while its transmitter record is x (node 8 `f :=
+    m.Frame()` shows Access (WFrame (t_content x)), node 11 `tx.TransmitFrame` shows Transmit (t_snap x) o; WithTimeout and
+    cancel() are silent); [tx_abs] maps configurations to X1..X9, XHU, XHL and, from the answer of TransmitFrame / a failed
+    hook on, to SEL / TFail.  Silent steps stutter; every visible step is a transition of [step_fn] of thread t into a
+    transmitter record whose pc is the abstraction of the new configuration - so I4 (exactly-once accounting), the order
+    HookRet < Frame < Transmit and the "frame = content at Frame()" theorems are theorems about the closure's executions. *)
+Theorem C14_transmit_program_refines_lts : forall t x c o b e c' s,
+  tx_next t x c o b = Some (e, c') -> th s t = TTx x -> t_pc x = tx_abs c ->
+  match e with
+  | None => tx_abs c' = tx_abs c
+  | Some ev => (forall u, ev = Lock u -> owner s = None) ->
+      exists s', step_fn s ev = Some s' /\ (exists x', th s' t = TTx x' /\ t_pc x' = tx_abs c')
+                 /\ (forall u, u <> t -> th s' u = th s u)
+                 /\ owner s' = match ev with Lock _ => Some t | Unlock _ => None | _ => owner s end
+  end.
+Proof. exact transmit_refines. Qed.
+Print Assumptions C14_transmit_program_refines_lts.
+
+Theorem C14_transmit_program_step_reachable : forall cfg t x c o b ev c' s,
+  reachable cfg s -> th s t = TTx x -> t_pc x = tx_abs c -> tx_next t x c o b = Some (Some ev, c') ->
+  (forall u, ev = Lock u -> owner s = None) ->
+  exists s' x', step_fn s ev = Some s' /\ reachable cfg s' /\ th s' t = TTx x' /\ t_pc x' = tx_abs c'.
+Proof. exact transmit_step_reachable. Qed.
+Print Assumptions C14_transmit_program_step_reachable.
+
+Example C14_transmit_refinement_nonvacuous :
+  tx_abs (mkL 0 true 0) = X1 /\
+  tx_next 2 (with_content (init_tx false) 9) (mkL 8 true 0) true false
+    = Some (Some (Access 2 (WFrame 9)), mkL 9 true 0) /\
+  tx_next 2 (with_snap (init_tx false) 9) (mkL 11 true 0) false false
+    = Some (Some (Transmit 2 9 false), mkL 12 false 0) /\
+  tx_abs (mkL 12 false 0) = TFail /\ tx_abs (mkL 16 true 0) = SEL.
 Proof. vm_compute. repeat split. Qed.
